@@ -11,15 +11,32 @@ Local Open Scope Z_scope.
 (** Guarded statement (what holds of the code at HEAD): for EVERY transaction-group id, every root path
     and every list of write commands each of which is [encodable] — key path shorter than 2^15 bytes,
     payload shorter than 2^31 bytes, VarRecLen an int32, 1..255 data shapes, every column name at most
-    255 bytes — ParseTGData applied to the bytes serializeTG produced returns the id and, per command
+    255 bytes — parseTGData (the checked decoder behind ParseTGData) applied to the bytes serializeTG produced returns the id and, per command
     in order, exactly the record type, target file, payload length, VarRecLen, (offset, index, payload)
     buffer and column schema it was given.  [length cmds < 2^63] is Go's own bound on [len]. *)
 Theorem C28_roundtrip : forall tgid cmds root,
   in_ity I64 tgid -> Z.of_nat (length cmds) < 2 ^ 63 ->
   forallb encodableb cmds = true ->
-  ParseTGData (serializeTG tgid cmds) root = Ok (tgid, map (to_wtset root) cmds).
-Proof. exact parse_serialize_roundtrip. Qed.
+  parseTGData (serializeTG tgid cmds) root = Ok (tgid, map (to_wtset root) cmds).
+Proof. exact parse_serialize_roundtrip_checked. Qed.
 Print Assumptions C28_roundtrip.
+
+(** the exported ParseTGData (which returns (0, nil) where parseTGData reports an error) *)
+Theorem C28_roundtrip_exported : forall tgid cmds root,
+  in_ity I64 tgid -> Z.of_nat (length cmds) < 2 ^ 63 ->
+  forallb encodableb cmds = true ->
+  ParseTGData_go (serializeTG tgid cmds) root = Ok (tgid, map (to_wtset root) cmds).
+Proof.
+  intros tgid cmds root H1 H2 H3. unfold ParseTGData_go.
+  now rewrite parse_serialize_roundtrip_checked.
+Qed.
+Print Assumptions C28_roundtrip_exported.
+
+(** the decoder checks every length field (fix in /repo): no byte string makes it index out of range,
+    and it accepts exactly what the unguarded sequence of steps decodes without a negative data length *)
+Theorem C28_decoder_total : forall bs root, parseTGData bs root <> Panic.
+Proof. exact parseTGData_no_panic. Qed.
+Print Assumptions C28_decoder_total.
 
 (** ... and the decoded buffer yields offset, interval index and payload through the accessors of
     executor/wal/oib.go *)
@@ -43,7 +60,7 @@ Print Assumptions C28_overcount_panics.
 Definition C28_full : Prop := forall tgid cmds root,
   in_ity I64 tgid -> Z.of_nat (length cmds) < 2 ^ 63 ->
   forallb acceptableb cmds = true ->
-  ParseTGData (serializeTG tgid cmds) root = Ok (tgid, map (to_wtset root) cmds).
+  ParseTGData_go (serializeTG tgid cmds) root = Ok (tgid, map (to_wtset root) cmds).
 
 Definition epoch_shape : shape := mkshape [x45; x70; x6f; x63; x68] x03.        (* "Epoch" : INT64 *)
 
@@ -53,7 +70,7 @@ Definition C28_witness_long_name : list cmd :=
   [ mkcmd 0 [x61; x2f; x62] 0 37024 1 [x01; x02; x03; x04] [ epoch_shape; mkshape (repeat x4e 256) x00 ] ].
 
 (** witness 2: one command with 256 data shapes: uint8(256) = 0, DSVToBytes returns nil, nothing is
-    appended, and the decoder indexes past the end — run-time panic *)
+    appended, and the decoder finds no shape vector: an error (a panic before the fix), ParseTGData returns (0, nil) *)
 Definition C28_witness_many_shapes : list cmd :=
   [ mkcmd 0 [x61; x2f; x62] 0 37024 1 [x01; x02; x03; x04] (repeat epoch_shape 256) ].
 
@@ -81,7 +98,7 @@ Example C28_witness_classes :
   /\ existsb many_shapesb C28_witness_long_name = false
   /\ forallb acceptableb C28_witness_many_shapes = true /\ existsb many_shapesb C28_witness_many_shapes = true
   /\ existsb long_nameb C28_witness_many_shapes = false
-  /\ ParseTGData (serializeTG 7 C28_witness_many_shapes) [x2f; x64] = Panic.
+  /\ ParseTGData_go (serializeTG 7 C28_witness_many_shapes) [x2f; x64] = Ok (0, []).
 Proof. vm_compute. repeat split; reflexivity. Qed.
 
 (** the guard is exactly "acceptable and in neither class" *)
